@@ -131,6 +131,9 @@ def run(ctx):
                     return keys[item]
                 if isinstance(item, (up.model.Parameter, up.model.Variable)) and item.type in shadow_t.values():
                     return item.name
+                if isinstance(item, up.model.Parameter) and item.name in shadow_par and shadow_par[item.name] == item.type \
+                        and item.name not in orig_par:
+                    return item.name                      # a re-read parameter of a non-user type (bool/int/real)
                 if isinstance(item, (up.model.Parameter, up.model.Variable)):
                     return wname(item)
                 return item.name
@@ -142,6 +145,8 @@ def run(ctx):
             for t in p.user_types:
                 names.ty(t)
             params = list(a.parameters) if a is not None else list(p.actions[0].parameters)
+            shadow_par = {wname(pp): sh_type(pp.type) for pp in params}
+            orig_par = {pp.name for pp in params if wname(pp) == pp.name}
             for pp in params:
                 names.par(pp)
             act2 = InstantaneousAction("act", OrderedDict((wname(pp), sh_type(pp.type)) for pp in params), env)
@@ -156,12 +161,20 @@ def run(ctx):
                 dist["effects"] += len(effs)
                 dist["rewrite_off"] += not rewrite
                 buf = _io.StringIO()
-                try:
-                    w._write_untimed_effects(a, conv, buf, {})
-                    text = buf.getvalue().split(":effect", 1)[1]
-                except Exception:
-                    text = None
-                    dist["writer_raised"] += 1
+                import warnings
+                with warnings.catch_warnings(record=True) as ws:
+                    warnings.simplefilter("always")
+                    try:
+                        w._write_untimed_effects(a, conv, buf, {})
+                        text = buf.getvalue().split(":effect", 1)[1]
+                    except Exception:
+                        text = None
+                        dist["writer_raised"] += 1
+                    if text is not None and any("cannot exactly represent" in str(x.message) for x in ws):
+                        # a real constant outside the exact range: the writer prints an approximation and warns; the
+                        # model's show_real answers None there (see Model/PddlExpr.v)
+                        text = None
+                        dist["inexact_real_warning"] = dist.get("inexact_real_warning", 0) + 1
                 for e in effs:
                     dist["conditional"] += not e.condition.is_true()
                     dist["forall"] += len(e.forall) > 0
@@ -180,6 +193,7 @@ def run(ctx):
                 dist["hand"] += 1
             sx, pre, dom = (None, None, None) if text is None else real_lex(reader, text)
             parsed = None
+            rejected_by_checks = False
             if sx is not None:
                 # the conditions the reader simplifies: parse every "when" condition with the real expression parser
                 def walk(x, vars_):
@@ -213,6 +227,12 @@ def run(ctx):
                 try:
                     reader._add_effect(q, act2, types_map, pre, dom)
                     parsed = list(act2.effects)
+                except (up.exceptions.UPConflictingEffectsException, up.exceptions.UPTypeError,
+                        up.exceptions.UPUsageError) as ex_:
+                    # checks of add_effect that the model does not have (they only reject): e.g. `r := v when (true or b)`
+                    # + `r -= w` is accepted by the API, the written `(assign r v) (decrease r w)` is a conflict
+                    rejected_by_checks = True
+                    dist["rejected_by_unmodelled_checks"] = dist.get("rejected_by_unmodelled_checks", 0) + 1
                 except Exception:
                     dist["reader_raised"] += 1
                 finally:
@@ -255,7 +275,8 @@ def run(ctx):
                 g_table, gbool(rewrite), glist(g_effs), gopt(None if sx is None else gsexp(sx)), gopt(g_parsed))
             cases.append(case)
             metas.append({"action": None if a is None else str(a), "text": text,
-                          "parsed": None if parsed is None else [str(e) for e in parsed], "rewrite": rewrite})
+                          "parsed": None if parsed is None else [str(e) for e in parsed], "rewrite": rewrite,
+                          "rejected_by_checks": rejected_by_checks})
 
     pre_ = "Local Open Scope string_scope.\n"
     codes = ctx.coq_codes(cases, "ecode", imports=IMPORTS, preamble=pre_, shard=60, label="c18eff")
@@ -265,6 +286,8 @@ def run(ctx):
     for i, (c, m) in enumerate(zip(codes, metas)):
         if m["action"] is None:
             c &= 2          # hand-written text: there is no original effect list, only the parser is compared
+        if m["rejected_by_checks"]:
+            c &= 1          # the reader's unmodelled checks rejected the effects: only the printer is compared
         if c == 0:
             continue
         mism += 1
